@@ -18,7 +18,11 @@ PROP = dict(
                floors=dict([(k, 1000) for k in KINDS] + [("buffer:share", 10000), ("buffer:share-at-max", 2000),
                                                         ("meta:addref-at-max", 1000), ("meta:clone-created", 2000),
                                                         ("monitor:assign-checks", 50000), ("monitor:buffer-lifetime-checks", 100000),
-                                                        ("monitor:meta-lifetime-checks", 100000)]))],
+                                                        ("monitor:meta-lifetime-checks", 100000)])),
+          dict(name="c15_cxx", src=["c15_cxx.cpp"], libs=["mpt++", "mptio", "mptplot", "mptcore"], batch=256, lsan=True,
+               floors={"reference:assign": 10000, "reference:move": 10000, "reference:detach": 10000, "reference:copy-at-max": 10000,
+                       "monitor:reference-checks": 100000, "metatype::basic": 1000, "metatype::generic": 1000,
+                       "metatype::value<double>": 1000, "monitor:cxxmeta-checks": 50000, "monitor:destructor-events": 10000})],
     rule=("case = 70 raw-counter cases (start values 0,1,2,3,MAX-2,MAX-1,MAX), or one PRNG history on shared buffers (4 handles), on one "
           "metatype kind (addref/unref/clone/addref-at-maximum), or of reference replacements through conversion; non-trivial = a buffer "
           "reached >= 2 handles / an addref succeeded or a clone was created / every assignment history / raw start value != 0; "
